@@ -813,6 +813,12 @@ bool TimeZoneInfo::Load(ZoneInfoSource* zip) {
     ttp = &transition_types_[tr.type_index];
     tr.civil_sec = LocalTime(tr.unix_time, *ttp).cs;
     if (i != 0) {
+      // Check that the transitions are (still) ordered by time. Those that
+      // ExtendTransitions() generates from a future specification with large
+      // or negative rule times can run into the following year's, and
+      // BreakTime() and NextTransition() depend on the order.
+      if (!Transition::ByUnixTime()(transitions_[i - 1], tr))
+        return false;  // out of order
       // Check that the transitions are ordered by civil time. Essentially
       // this means that an offset change cannot cross another such change.
       // No one does this in practice, and we depend on it in MakeTime().
